@@ -84,7 +84,7 @@ def set_gv(rng):
 
 def w_gain(ctx, rng, i):
     fs, wl = set_gv(rng)
-    n = int(rng.choice([8, 17, 64, 255, 1024]))
+    n = core.long_or(rng, i, int(rng.choice([8, 17, 64, 255, 1024])))
     n_pol = int(rng.integers(1, 3))
     noise = bool(rng.integers(3))
     dtype = ["complex", "complex", "float"][int(rng.integers(3))]
